@@ -2,7 +2,7 @@
 import ast
 
 from ..model import AnalysisError, dotted, unparse
-from ..util import FACTS, FACTS_I, U, enum_paths, walk_no_nested, is_yield_call
+from ..util import resolved_text, FACTS, FACTS_I, U, enum_paths, walk_no_nested, is_yield_call
 from ..paths import call_attr, call_name
 
 SP = 'scales/pool/singleton.py'
@@ -69,12 +69,31 @@ def r1(ctx):
              'sequential requests share the connection')
     elif ('self.next_sink.is_closed', True) in fs or ('self.next_sink.state==ChannelState.Closed', True) in fs:
       seen.add('closed')
-      reset = [e for e in ev if e.kind == 'stmt' and isinstance(e.node, ast.Assign) and U(e.node.targets[0]) == 'self.next_sink' and U(e.node.value) == 'None']
+      def resets(st):
+        if not isinstance(st, ast.Assign):
+          return False
+        t, v = st.targets[0], st.value
+        if isinstance(t, ast.Tuple) and isinstance(v, ast.Tuple) and len(t.elts) == len(v.elts):
+          return any(U(a) == 'self.next_sink' and U(b) == 'None' for a, b in zip(t.elts, v.elts))
+        return U(t) == 'self.next_sink' and U(v) == 'None'
+      reset = [e for e in ev if e.kind == 'stmt' and resets(e.node)]
       rec = [e for e in ev if e.kind == 'call' and U(e.node.func) == 'self._Get']
       unsub = [e for e in ev if e.kind == 'call' and call_attr(e.node) == 'Unsubscribe']
       ok = len(reset) == 1 and len(rec) == 1 and len(unsub) == 1
       ctx.ob('C16.R1', g, 'a failed sink is unsubscribed, dropped and replaced through _Get', ok, 'closed branch: reset %d, recursion %d, unsubscribe %d' % (len(reset), len(rec), len(unsub)),
              'the pool replaces a failed connection with a fresh one on the next request')
+      # the failed sink is closed before it is forgotten: "closed" is only its reported state -- a resurrector that is
+      # marked down still owns a retry greenlet which reconnects behind the pool's back
+      closed = []
+      for i, e in enumerate(ev):
+        if e.kind == 'call' and call_attr(e.node) == 'Close' and isinstance(e.node.func, ast.Attribute):
+          recv = resolved_text(ev, i, e.node.func.value)
+          if recv == 'self.next_sink':
+            closed.append(i)
+      ctx.ob('C16.R1', g, 'a failed sink is closed before it is replaced', len(closed) == 1 and (not rec or closed[0] < ev.index(rec[0])),
+             'closed branch calls Close() on the failed sink %d time(s)' % len(closed),
+             'a dropped, unclosed ResurrectorSink keeps its retry greenlet and reconnects: two live connections for one singleton pool, '
+             'one of them unknown to the pool and never closed')
     else:
       seen.add('reuse')
       r = [e for e in ev if e.kind == 'ret']
@@ -96,6 +115,19 @@ def r1(ctx):
     first = ('self._ref_count>1', False) in fs or ('self._ref_count==1', True) in fs
     ok = len(inc) == 1 and (bool(run) == first)
     ctx.ob('C16.R1', o, 'Open counts one reference; only the first Open opens', ok, 'increments %d, opens=%s under %s' % (len(inc), bool(run), fs), whyo)
+  # the first Open defers _Get to a new greenlet: by the time it runs every holder may have closed again
+  getters = [n for n in o.nested.values()]
+  n_get = 0
+  for gt in getters:
+    for ev, ex in enum_paths(ctx, gt):
+      for i, e in enumerate(ev):
+        if e.kind == 'call' and U(e.node.func) == 'self._Get':
+          n_get += 1
+          fs = facts(ev, i)
+          live = ('self._ref_count>0', True) in fs or ('self._ref_count>=1', True) in fs or ('self._ref_count', True) in fs or ('self._ref_count<=0', False) in fs
+          ctx.ob('C16.R1', gt, 'the deferred open runs only while a holder is left', live, 'deferred _Get() under facts %s' % sorted(fs),
+                 'Open(); Close() before the spawned greenlet runs: the connection is then created and opened after the last holder closed, and nobody closes it')
+  ctx.ob('C16.R1', o, 'the first Open opens the sink through _Get on a deferred greenlet', n_get >= 1, 'no deferred _Get() found in Open', whyo)
   c = prog.func(SP, 'SingletonPoolSink.Close')
   for ev, ex in enum_paths(ctx, c):
     dec = [i for i, e in enumerate(ev) if e.kind == 'stmt' and isinstance(e.node, ast.AugAssign) and U(e.node.target).replace(' ', '') == 'self._ref_count' and isinstance(e.node.op, ast.Sub)]
